@@ -171,8 +171,8 @@ theorem reversal_touches_links_only (s : Seg) (mark : Nat → Bool) : Pass.RevSa
 (slots 7 and 8 are marks) -/
 example : Pass.revOrder (fun i => i == 7 || i == 8) [7, 1, 8, 2, 3, 8] = [7, 3, 8, 2, 1, 8] := by decide
 
-/-- **glyph ids are real glyphs** (the third sentence of C03): on a font whose cmap and whose substitution classes name only glyphs below
-`N` – an executable test (`gidHypCheck`) the driver evaluates for every font of the correspondence check –, whatever its passes, state
+/-- **glyph ids are real glyphs** (the third sentence of C03): on a font without a mirror attribute whose cmap and whose substitution classes
+name only glyphs below `N` – an executable test (`gidHypCheck`) the driver evaluates for every font of the correspondence check –, whatever its passes, state
 tables, rules, constraint and action programs (`put_glyph`, `put_subs`, `put_copy`, `insert`, `temp_copy`, `delete`, … in any order),
 every text, either direction and any fuel: every slot record of a segment the modelled pipeline returns – in particular every slot of
 the glyph stream – has a glyph id below `N`.  (The class map travels in the rule context and is never written: `Proofs/HeapGid.lean`,
@@ -180,8 +180,8 @@ the glyph stream – has a glyph id below `N`.  (The class map travels in the ru
 theorem glyph_ids_are_real_glyphs (font : Pass.Font) (N cmapMax : Nat) (hcm : ∀ u, font.cmap u ≤ cmapMax)
     (hchk : Pass.gidHypCheck font N cmapMax = true) (text : List Nat) (fuel : Nat) (dir : Nat) {c : Ctx} {ci : List Assoc.CI}
     (e : Pass.shape font text fuel dir = .ok (some (c, ci))) : ∀ j, (c.seg.get j).gid < N := by
-  obtain ⟨h1, h2⟩ := Pass.gidHypCheck_spec hchk
-  exact Pass.shape_gid (by omega) font (fun u => by have := hcm u; omega) h2 text fuel dir e
+  obtain ⟨h1, hM, h2⟩ := Pass.gidHypCheck_spec hchk
+  exact Pass.shape_gid (by omega) font (fun u => by have := hcm u; omega) h2 hM text fuel dir e
 
 /-- each single opcode keeps the glyph ids below the glyph count (the induction step, exported for the audit) -/
 theorem every_opcode_keeps_glyph_ids {N : Nat} {K : Array (List Nat)} (hN : 0 < N) (hK : ClassesOK N K) : OpsPreserve (PGid N K) := ops_PGid hN hK
@@ -196,8 +196,8 @@ theorem passes_keep_stream (passes : Array Pass.PassT) (c : Ctx) (lo hi fuel : N
     (e : Pass.runRange passes c lo hi fuel = .ok (some c')) : Pass.WF c'.seg := Pass.runRange_spec passes c lo hi fuel h e
 
 /-- every call of `Silf::runGraphite`, with the bidi step inside it or not -/
-theorem silf_call_keeps_stream (passes : Array Pass.PassT) (bPass : Nat) (c : Ctx) (lo hi : Nat) (dobidi : Bool) (fuel : Nat) (h : Pass.WF c.seg) {c' : Ctx}
-    (e : Pass.runPhase passes bPass c lo hi dobidi fuel = .ok (some c')) : Pass.WF c'.seg := Pass.runPhase_spec passes bPass c lo hi dobidi fuel h e
+theorem silf_call_keeps_stream (passes : Array Pass.PassT) (bPass : Nat) (c : Ctx) (lo hi : Nat) (dobidi : Bool) (fuel aMirror : Nat) (h : Pass.WF c.seg) {c' : Ctx}
+    (e : Pass.runPhase passes bPass c lo hi dobidi fuel aMirror = .ok (some c')) : Pass.WF c'.seg := Pass.runPhase_spec passes bPass c lo hi dobidi fuel h e
 
 /-- each single opcode keeps the invariant (the induction step of the above, exported for the audit) -/
 theorem every_opcode_keeps_stream : OpsPreserve PS := ops_PS
